@@ -47,6 +47,7 @@ def ENCODED():
 def cases(tier, seed):
     zones = ["US/Pacific", "UTC"] + (["Australia/Sydney", "Europe/London"] if tier == "thorough" else [])
     out = [f"{k}|{z}|{s}" for k in ("fn", "class") for z in zones for s in ("15", "30", "60")] + [f"daily|{z}|D" for z in zones[:2]]
+    out += ["class-col|US/Pacific|60", "class-elec|US/Pacific|60"]
     cals = ["30-31-28", "24-30-36", "60-61", "30-71"] + (["25-35-35", "70-25"] if tier == "thorough" else [])
     out += [f"billing|UTC|{c}" for c in cals] + ["billing|US/Pacific|30-71", "billing|US/Pacific|fall-35", "billing|UTC|med35", "billing|US/Pacific|tail-nan"]
     if tier == "thorough":
@@ -75,6 +76,8 @@ def build_sub(kind, zone, step, days, missing, sym, env=None):
     dates = sorted(byday)
     day = byday[dates[1]]
     nan_pos = set(day[:missing]) if kind == "fn" else set(day[3:3 + missing])
+    base_kind = kind
+    kind = "class" if kind.startswith("class") else kind
     n = len(idx)
     obs = D.col("o", n, nan_pos, sym, env)
     if kind == "fn":
@@ -82,7 +85,18 @@ def build_sub(kind, zone, step, days, missing, sym, env=None):
         warns = []
         out = dpu.downsample_and_clean_daily_data(ser, warns)
         return _Shell(out.rename(columns={"value": "observed"}), warns), idx, nan_pos
+    if base_kind == "class-col":  # the timestamps handed over in a 'datetime' column instead of the index
+        df = pd.DataFrame({"datetime": idx, "observed": obs, "temperature": np.full(n, 55.0)})
+        return dd.DailyBaselineData(df, is_electricity_data=False), idx, nan_pos
     df = pd.DataFrame({"observed": obs, "temperature": np.full(n, 55.0)}, index=idx)
+    if base_kind == "class-elec":
+        # electricity: a reading of exactly 0 means "missing"; every other reading - negative (net-metered) ones included - counts
+        # (two designated readings of the probed day have a free sign; the others are assumed positive: each free sign is a fork)
+        if sym:
+            free = set(day[10:12])
+            for i in range(n):
+                E.cur().assume(z3.Real(f"o{i}") != 0 if i in free else z3.Real(f"o{i}") > 0)
+        return dd.DailyBaselineData(df, is_electricity_data=True), idx, nan_pos
     d = dd.DailyBaselineData(df, is_electricity_data=False)
     return d, idx, nan_pos
 
@@ -181,9 +195,9 @@ def replay_usage(inp):
     import logging
     logging.disable(logging.CRITICAL)
     env = inp["env"]
-    if inp["kind"] in ("fn", "class"):
+    if inp["kind"] in ("fn", "class", "class-col", "class-elec"):
         d, idx, nan_pos = build_sub(inp["kind"], inp["zone"], inp["arg"], inp["days"], inp["missing"], False, env)
-        pr = check_sub(d, idx, nan_pos, env, inp["zone"], inp["arg"], inp["kind"])
+        pr = check_sub(d, idx, nan_pos, env, inp["zone"], inp["arg"], "class" if inp["kind"].startswith("class") else inp["kind"])
     elif inp["kind"] == "daily":
         d, idx = build_daily(inp["zone"], inp["days"], False, env)
         got = d.df["observed"].to_numpy(dtype=float)
@@ -202,7 +216,7 @@ def run_case(case: Case, name: str):
         return FPF.half_lemma(case, 1500, "minute atoms of a local day: coverage = n_coverage / n_total in as_freq")
     kind, zone, arg = name.split("|")
     days = 4 if case.tier == "thorough" else 3
-    if kind in ("fn", "class"):
+    if kind in ("fn", "class", "class-col", "class-elec"):
         return run_sub(case, kind, zone, arg, days)
     if kind == "daily":
         return run_daily(case, zone, days)
@@ -210,6 +224,7 @@ def run_case(case: Case, name: str):
 
 
 def run_sub(case, kind, zone, step, days):
+    entry, kind = kind, ("class" if kind.startswith("class") else kind)  # class-col / class-elec: same obligations as 'class'
     idx0 = feed_index(zone, step, days)
     byday = D.local_days(idx0)
     dates = sorted(byday)
@@ -218,7 +233,7 @@ def run_sub(case, kind, zone, step, days):
 
     def run():
         which = F.choose("layout", list(lay))
-        return (which,) + build_sub(kind, zone, step, days, lay[which], True)
+        return (which,) + build_sub(entry, zone, step, days, lay[which], True)
 
     with D.symbolic_dataclasses():
         paths = case.explore(run)
@@ -227,9 +242,10 @@ def run_sub(case, kind, zone, step, days):
             case.rep["harness_errors"].append(f"data class raised {p.value!r} (sub {zone} {step})")
             continue
         which, d, idx, nan_pos = p.value
-        rp = ("usage", (lambda w: lambda mdl: dict(kind=kind, zone=zone, arg=step, days=days, missing=lay[w], env=model_env(mdl, case.inputs)))(which))
+        rp = ("usage", (lambda w: lambda mdl: dict(kind=entry, zone=zone, arg=step, days=days, missing=lay[w], env=model_env(mdl, case.inputs)))(which))
         df = d.df
-        got = dict(zip([t.date() for t in df.index], cells(df["observed"])))
+        got = dict(zip([t.tz_convert(zone).date() if str(t.tz) != zone else t.date() for t in df.index], cells(df["observed"])))
+        case.prove(p, str(df.index.tz) == zone, "the data object keeps the local timezone of the input", replay=rp)
         total_in = z3.RealVal(0)
         for date in dates[:-1]:
             pos = byday[date]
